@@ -178,6 +178,7 @@ def make_geo(case):
             o = mm.Arc(w['n'], w['radius'], w['ang1'], w['ang2'], w['r'], tag=w.get('tag'))
         elif k == 'helix':
             o = mm.Helix(w['n'], w['length'], w['turnlen'], w['r'], *w['radii'], tag=w.get('tag'))
+        o._case_w = w
         geo.append(o)
     geo.compute_tags()
     tr = [t for t in case.get('transforms', []) if t[0] != 'scale']
@@ -202,6 +203,18 @@ def build(case, sources=True, loads=True):
         add_sources(m, case.get('sources', []))
     if loads:
         add_loads(m, case.get('loads', []))
+        # distributed loads given with the object they belong to: 'skin' = conductivity, 'coat' = (outer radius, eps_r)
+        dist = False
+        for g in m.geo:
+            w = getattr(g, '_case_w', {})
+            if w.get('skin') is not None:
+                m.register_load(mm.Skin_Effect_Load(g, conductivity=w['skin']), None, g.tag)
+                dist = True
+            if w.get('coat') is not None:
+                m.register_load(mm.Insulation_Load(g, w['coat'][0], w['coat'][1]), None, g.tag)
+                dist = True
+        if dist:
+            m.fix_distributed_loads()
     return m
 
 
